@@ -11,15 +11,19 @@ EXTENDS AlgoDom, Json, IOUtils, TLC
 
 Tr == ndJsonDeserialize(IOEnv.TRACE)
 
-VARIABLES l, nbad, grp
-\* grp = [op, inst, cnt, key, done] : the current group and the set of groups already closed
+VARIABLES l, nbad, gs, done
+\* gs = index of the first event of the current (op, inst) group, done = groups already closed
 
 DocStableOps == {"bubble_sort"}    \* "The order of equal elements is guaranteed to be preserved."
 
 Out(ev) == [oa |-> ev.oa, ob |-> ev.ob, od |-> ev.od, oc |-> ev.oc, r |-> ev.r]
 
+\* a trace that starts with a "#replay" marker re-executes single recorded cases (check.py --replay):
+\* the events are judged as always, the coverage bookkeeping is switched off
+Replay == Tr[1].op = "#replay"
+
 Judge(ev) ==
-    IF ev.op = "#end" THEN "ok"
+    IF ev.op \in {"#end", "#replay"} THEN "ok"
     ELSE IF ev.op \notin AllOps THEN "harness-op"
     ELSE IF ~InDom(ev.op, ev) THEN "harness-domain"
     ELSE IF ~Post(ev.op, ev, Out(ev)) THEN "post"
@@ -30,34 +34,31 @@ Judge(ev) ==
 
 Expected(ev) == IF ev.op \in AllOps /\ InDom(ev.op, ev) THEN ToJson(Ref(ev.op, ev)) ELSE "-"
 
-\* coverage bookkeeping: verdict for the group structure at event ev
-GroupVerdict(ev) ==
-    IF ev.op = grp.op /\ ev.inst = grp.inst
-    THEN IF KeyLess(grp.key, KeyOf(ev)) THEN "ok" ELSE "harness-order"
-    ELSE IF grp.op # "" /\ grp.cnt # DomSize(grp.op) THEN "harness-coverage"
-    ELSE IF <<ev.op, ev.inst>> \in grp.done THEN "harness-regroup"
+\* coverage bookkeeping: does event l continue the current group?
+SameGroup == l > 1 /\ Tr[l].op = Tr[l - 1].op /\ Tr[l].inst = Tr[l - 1].inst
+GroupVerdict ==
+    IF Replay THEN "ok"
+    ELSE IF SameGroup
+    THEN IF Tr[l].op = "#end" \/ KeyLess(KeyOf(Tr[l - 1]), KeyOf(Tr[l])) THEN "ok" ELSE "harness-order"
+    ELSE IF l > 1 /\ Tr[l - 1].op \in AllOps /\ l - gs # DomSize(Tr[l - 1].op) THEN "harness-coverage"
+    ELSE IF <<Tr[l].op, Tr[l].inst>> \in done THEN "harness-regroup"
     ELSE "ok"
 
-GroupNext(ev) ==
-    IF ev.op = grp.op /\ ev.inst = grp.inst
-    THEN [grp EXCEPT !.cnt = @ + 1, !.key = KeyOf(ev)]
-    ELSE [op |-> ev.op, inst |-> ev.inst, cnt |-> 1, key |-> IF ev.op = "#end" THEN <<>> ELSE KeyOf(ev),
-          done |-> grp.done \cup {<<grp.op, grp.inst>>}]
-
-Init == l = 1 /\ nbad = 0 /\ grp = [op |-> "", inst |-> "", cnt |-> 0, key |-> <<>>, done |-> {}]
+Init == l = 1 /\ nbad = 0 /\ gs = 1 /\ done = {}
 
 Next ==
     /\ l <= Len(Tr)
     /\ l' = l + 1
-    /\ grp' = GroupNext(Tr[l])
+    /\ IF SameGroup THEN UNCHANGED <<gs, done>>
+       ELSE gs' = l /\ done' = IF l > 1 THEN done \cup {<<Tr[l - 1].op, Tr[l - 1].inst>>} ELSE done
     /\ LET v == Judge(Tr[l])
-           g == GroupVerdict(Tr[l])
+           g == GroupVerdict
            e == IF l = Len(Tr) /\ Tr[l].op # "#end" THEN "harness-noend" ELSE "ok" IN
        /\ nbad' = nbad + (IF v = "ok" THEN 0 ELSE 1) + (IF g = "ok" THEN 0 ELSE 1) + (IF e = "ok" THEN 0 ELSE 1)
        /\ (v = "ok" \/ PrintT(<<"DEV", l, v, Expected(Tr[l])>>))
-       /\ (g = "ok" \/ PrintT(<<"DEV", l, g, ToJson([op |-> grp.op, inst |-> grp.inst, cnt |-> grp.cnt])>>))
+       /\ (g = "ok" \/ PrintT(<<"DEV", l, g, ToJson([op |-> Tr[l - 1].op, inst |-> Tr[l - 1].inst, cnt |-> l - gs])>>))
        /\ (e = "ok" \/ PrintT(<<"DEV", l, e, "-">>))
 
-Spec == Init /\ [][Next]_<<l, nbad, grp>>
+Spec == Init /\ [][Next]_<<l, nbad, gs, done>>
 Consumed == TLCGet("stats").diameter - 1 = Len(Tr)
 ==========================================================================
